@@ -1,7 +1,7 @@
 #!/usr/bin/env python3
 """Prints the prompt given to an independent seeding sub-agent for one property (only the property text + worktree)."""
 import json, sys
-pid = sys.argv[1]; wt = f"/tmp/wt-{pid.lower()}"; n = int(sys.argv[2]) if len(sys.argv) > 2 else 3
+pid = sys.argv[1]; wt = f"/tmp/wt-{pid.lower()}" + (sys.argv[3] if len(sys.argv) > 3 else ""); n = int(sys.argv[2]) if len(sys.argv) > 2 else 3
 p = [json.loads(l) for l in open('/verif/properties.jsonl') if json.loads(l)['id'] == pid][0]
 files = ", ".join(p['anchors']['files'])
 mech = "; ".join(f"{m['name']} ({m['where']})" for m in p['anchors'].get('mechanism', []))
